@@ -244,6 +244,62 @@ func R20(p *core.Prog) *core.Result {
 			}
 		}
 	}
+	// unfold side of DISPATCH-ORDER: a user-registered unfolder takes precedence over the per-type cache of
+	// compiled unfolders (the cache may hold the plain unfolder of the same type, compiled for a nested use)
+	if lf := p.LookupFunc("gotype", "lookupReflUnfolder"); lf == nil {
+		r.Undecided(".DISPATCH-ORDER", "gotype.lookupReflUnfolder", "unfolder lookup not found")
+	} else {
+		var user, cache ssa.Instruction
+		for _, b := range lf.Blocks {
+			for _, in := range b.Instrs {
+				c, ok := in.(*ssa.Call)
+				if !ok || c.Common().StaticCallee() == nil {
+					continue
+				}
+				switch c.Common().StaticCallee().Name() {
+				case "lookupReflUser":
+					user = in
+				case "find":
+					cache = in
+				}
+			}
+		}
+		switch {
+		case user == nil || cache == nil:
+			r.Undecided(".DISPATCH-ORDER", "gotype.lookupReflUnfolder|anchors", "user-registry lookup or cache lookup not found in lookupReflUnfolder")
+		case reaches(cache, user):
+			r.Fail(".DISPATCH-ORDER", "gotype.lookupReflUnfolder|user-after-cache", p.Pos(lf.Pos()), "lookupReflUnfolder consults the cache of compiled unfolders before the user registry: once a type has been compiled for any use (e.g. as the target of its own processing unfolder) the cached plain unfolder shadows the user's unfolder from the second SetTarget on - a reused Unfolder differs from a fresh one", "")
+		default:
+			r.Ok(".DISPATCH-ORDER", p.Pos(lf.Pos()), "lookupReflUnfolder: user registry is consulted before the cache of compiled unfolders")
+		}
+	}
+	// EXPORTED-AGREE: both sides decide "exported field" the same way: unicode.IsUpper of the first rune of the name
+	for _, fn := range []string{"buildFieldFold", "fieldUnfolders"} {
+		f := p.LookupFunc("gotype", fn)
+		if f == nil {
+			r.Undecided(".EXPORTED-AGREE", "gotype."+fn, "function not found")
+			continue
+		}
+		ok := false
+		for _, b := range f.Blocks {
+			for _, in := range b.Instrs {
+				c, isC := in.(*ssa.Call)
+				if !isC || c.Common().StaticCallee() == nil || c.Common().StaticCallee().Name() != "IsUpper" || funcPkgPath(c.Common().StaticCallee()) != "unicode" {
+					continue
+				}
+				if ex, isE := c.Common().Args[0].(*ssa.Extract); isE && ex.Index == 0 {
+					if dc, isD := ex.Tuple.(*ssa.Call); isD && dc.Common().StaticCallee() != nil && dc.Common().StaticCallee().Name() == "DecodeRuneInString" {
+						ok = true
+					}
+				}
+			}
+		}
+		if ok {
+			r.Ok(".EXPORTED-AGREE", p.Pos(f.Pos()), "gotype."+fn+": a field is exported iff unicode.IsUpper(first rune of its name)")
+		} else {
+			r.Fail(".EXPORTED-AGREE", "gotype."+fn+"|exported", p.Pos(f.Pos()), "gotype."+fn+" no longer decides 'exported' by unicode.IsUpper of the first rune of the field name, as the other side does: fields whose name starts with a non-ASCII upper-case letter are folded by one side and treated as unknown by the other", "")
+		}
+	}
 	omitFirst(p, r)
 	resolverIdentity(p, r)
 	nilFolder(p, r)
